@@ -1218,6 +1218,7 @@ CONSTANTS
   MaxOps = %d
   EmitRecords = TRUE
   WithFaults = TRUE
+  WithHints = TRUE
 CONSTRAINT Constraint
 INVARIANT ExecutedAtMostOnce
 INVARIANT RecordedAtMostOnce
@@ -1225,6 +1226,7 @@ PROPERTY RecordedNeverExecutedAgain
 PROPERTY OnlyCompletedRunsRecord
 PROPERTY FreshRecordsWithoutExecuting
 PROPERTY LimitedRunTouchesOnlyItsApp
+PROPERTY HintedRunLeavesTrackedLedgersAlone
 ''' % maxops)
     res = require_ok(run_tlc('Ledger', cfg, workers=16, timeout=5000), 'Ledger.tla')
     report.add_tlc('Ledger MaxVer=2 MaxOps=%d' % maxops, res.stats())
@@ -1235,9 +1237,9 @@ PROPERTY LimitedRunTouchesOnlyItsApp
         if len(r['hist']) == maxops:
             ops = [op['op'] for op in r['hist']]
             # at least one run before and one run after a repair command
-            runs_ = [o for o in ops if o in ('run', 'runonly')]
-            if runs_ and ops[-1] in ('run', 'runonly') and (
-                    any(o in ('mark', 'markall', 'wipe', 'runfail') for o in ops) or 'runonly' in ops):
+            runs_ = [o for o in ops if o in ('run', 'runonly', 'runhint')]
+            if runs_ and ops[-1] in ('run', 'runonly', 'runhint') and (
+                    any(o in ('mark', 'markall', 'wipe', 'runfail', 'runhint') for o in ops) or 'runonly' in ops):
                 full.append(r)
     rng = random.Random(seed() * 389 + 8)
     rng.shuffle(full)
@@ -1285,8 +1287,16 @@ PROPERTY LimitedRunTouchesOnlyItsApp
             if any(v > 1 for a in st['execs'] for v in st['execs'][a].values()):
                 report.fail(dict(fp, **{'class': 'evolution-executed-twice'}), detail)
                 break
-            if st['op']['op'] in ('run', 'runonly', 'runfail'):
+            if st['op']['op'] in ('run', 'runonly', 'runfail', 'runhint'):
                 prev = prev_rows_of.get(id(obs), {})
+                # an app this completed run saw for the first time has its whole sequence recorded
+                if st.get('outcome') in ('executed', 'nothing') and st['op']['op'] in ('run', 'runhint'):
+                    short = sorted((a, v) for a, v in (st.get('fresh') or {}).items()
+                                   if sorted(have_rows.get(a, {})) != list(range(1, v + 1)))
+                    if short:
+                        report.fail(dict(fp, **{'class': 'fresh-app-sequence-not-recorded-once'}),
+                                    dict(detail, fresh_apps=short))
+                        break
                 again = sorted((a, l) for a, ls in (st.get('executed') or {}).items() for l in ls
                                if prev.get(a, {}).get(l))
                 if again:
@@ -1299,7 +1309,7 @@ PROPERTY LimitedRunTouchesOnlyItsApp
             prev_rows_of[id(obs)] = have_rows
             # --- agreement with Ledger.tla: a disagreement alone is drift, not a violation ---------
             rows = {a: bag(exp['rec'][a]) for a in ('a1', 'a2')}
-            if st['op']['op'] in ('run', 'runonly', 'runfail'):
+            if st['op']['op'] in ('run', 'runonly', 'runfail', 'runhint'):
                 if st['outcome'] != eop['outcome']:
                     report.spec_drift('Ledger.tla expects the run to be %s, it was %s: %s (step %d)'
                                       % (eop['outcome'], st['outcome'], label, st['index']))
